@@ -201,3 +201,42 @@ impl BitSink for FullSink {
         Ok(())
     }
 }
+
+/// A user error type without any payload (a unit struct) - as legitimate as one that carries data.
+#[derive(Debug, Clone, Copy, PartialEq, Eq)]
+pub struct UnitSinkError;
+
+impl fmt::Display for UnitSinkError {
+    fn fmt(&self, f: &mut fmt::Formatter<'_>) -> fmt::Result {
+        write!(f, "simulated sink failure")
+    }
+}
+impl std::error::Error for UnitSinkError {}
+
+/// Minimal user sink (required methods only) whose error type is a zero-sized unit struct.
+#[derive(Clone, Debug, Default)]
+pub struct UnitErrSink(pub Core);
+
+impl BitSink for UnitErrSink {
+    type Error = UnitSinkError;
+
+    fn align_to_byte(&mut self) -> Result<usize, Self::Error> {
+        self.0.gate(0).map_err(|_| UnitSinkError)?;
+        Ok(self.0.model.align())
+    }
+    fn write_lsbs<T: Bits>(&mut self, val: T, n: usize) -> Result<(), Self::Error> {
+        self.0.gate(1).map_err(|_| UnitSinkError)?;
+        self.0.model.push_lsbs(to_u64(val), n);
+        Ok(())
+    }
+    fn write_msbs<T: Bits>(&mut self, val: T, n: usize) -> Result<(), Self::Error> {
+        self.0.gate(2).map_err(|_| UnitSinkError)?;
+        self.0.model.push_msbs(to_u64(val), width::<T>(), n);
+        Ok(())
+    }
+    fn write<T: Bits>(&mut self, val: T) -> Result<(), Self::Error> {
+        self.0.gate(3).map_err(|_| UnitSinkError)?;
+        self.0.model.push_msbs(to_u64(val), width::<T>(), width::<T>());
+        Ok(())
+    }
+}
